@@ -72,7 +72,7 @@ PROPS["C01"] = {
     ],
     "legs": [
         {"test": "TestC01", "kind": "rapid",
-         "quick": {"checks": 6000, "shards": 4}, "thorough": {"checks": 150000, "shards": 16}},
+         "quick": {"checks": 15000, "shards": 4}, "thorough": {"checks": 150000, "shards": 16}},
     ],
     "min_nontrivial": {"quick": 2000, "thorough": 50000},
 }
@@ -101,7 +101,7 @@ PROPS["C02"] = {
     "legs": [
         {"test": "TestC02Depth1", "kind": "enum", "quick": {"shards": 6}, "thorough": {"shards": 16}},
         {"test": "TestC02Depth2", "kind": "enum", "quick": {"shards": 6}, "thorough": {"shards": 16}},
-        {"test": "TestC02Sampled", "kind": "rapid", "quick": {"checks": 1500, "shards": 3}, "thorough": {"checks": 60000, "shards": 16}},
+        {"test": "TestC02Sampled", "kind": "rapid", "quick": {"checks": 4000, "shards": 3}, "thorough": {"checks": 60000, "shards": 16}},
         {"test": "TestC02Universe", "kind": "rapid", "quick": {"checks": 5000, "shards": 1}, "thorough": {"checks": 200000, "shards": 1}},
     ],
     "min_nontrivial": {"quick": 5000, "thorough": 50000},
@@ -129,7 +129,7 @@ PROPS["C18"] = {
     ],
     "legs": [
         {"test": "TestC18Shapes", "kind": "enum", "quick": {"shards": 4}, "thorough": {"shards": 16}},
-        {"test": "TestC18Random", "kind": "rapid", "quick": {"checks": 3000, "shards": 2}, "thorough": {"checks": 100000, "shards": 8}},
+        {"test": "TestC18Random", "kind": "rapid", "quick": {"checks": 10000, "shards": 2}, "thorough": {"checks": 100000, "shards": 8}},
     ],
     "min_nontrivial": {"quick": 5000, "thorough": 50000},
 }
@@ -155,7 +155,7 @@ PROPS["C05"] = {
     ],
     "legs": [
         {"test": "TestC05", "kind": "rapid",
-         "quick": {"checks": 5000, "shards": 4, "shrink": "15s"}, "thorough": {"checks": 120000, "shards": 16}},
+         "quick": {"checks": 15000, "shards": 4, "shrink": "15s"}, "thorough": {"checks": 120000, "shards": 16}},
     ],
     "min_nontrivial": {"quick": 300, "thorough": 5000},
 }
@@ -178,7 +178,7 @@ PROPS["C03"] = {
     "assumptions": COMMON_ASSUMPTIONS,
     "legs": [
         {"test": "TestC03", "kind": "rapid",
-         "quick": {"checks": 8000, "shards": 4, "shrink": "15s"}, "thorough": {"checks": 250000, "shards": 16}},
+         "quick": {"checks": 20000, "shards": 4, "shrink": "15s"}, "thorough": {"checks": 250000, "shards": 16}},
     ],
     "min_nontrivial": {"quick": 5000, "thorough": 100000},
 }
@@ -202,7 +202,7 @@ PROPS["C04"] = {
     "legs": [
         {"test": "TestC04Arith", "kind": "enum", "quick": {"shards": 4}, "thorough": {"shards": 16}},
         {"test": "TestC04Bool", "kind": "enum", "quick": {"shards": 2}, "thorough": {"shards": 4}},
-        {"test": "TestC04Sampled", "kind": "rapid", "quick": {"checks": 3000, "shards": 2}, "thorough": {"checks": 100000, "shards": 12}},
+        {"test": "TestC04Sampled", "kind": "rapid", "quick": {"checks": 8000, "shards": 2}, "thorough": {"checks": 100000, "shards": 12}},
     ],
     "min_nontrivial": {"quick": 5000, "thorough": 50000},
 }
@@ -227,7 +227,7 @@ PROPS["C15"] = {
                     "redundant parentheses are never put directly around the list-valued right operand of IN (`x in (f())` is a one-element list by the grammar)"],
     "legs": [
         {"test": "TestC15Sequences", "kind": "enum", "quick": {"shards": 2}, "thorough": {"shards": 16}},
-        {"test": "TestC15Trees", "kind": "rapid", "quick": {"checks": 5000, "shards": 4}, "thorough": {"checks": 200000, "shards": 12}},
+        {"test": "TestC15Trees", "kind": "rapid", "quick": {"checks": 15000, "shards": 4}, "thorough": {"checks": 200000, "shards": 12}},
     ],
     "min_nontrivial": {"quick": 5000, "thorough": 50000},
 }
@@ -254,8 +254,8 @@ PROPS["C06"] = {
     "legs": [
         {"test": "TestC06Seeds", "kind": "enum", "quick": {"shards": 1}, "thorough": {"shards": 1}},
         {"test": "TestC06Long", "kind": "enum", "quick": {"shards": 2}, "thorough": {"shards": 4}},
-        {"test": "TestC06Grammar", "kind": "rapid", "quick": {"checks": 4000, "shards": 4, "shrink": "15s"}, "thorough": {"checks": 150000, "shards": 8}},
-        {"test": "TestC06Corrupt", "kind": "rapid", "quick": {"checks": 6000, "shards": 4, "shrink": "15s"}, "thorough": {"checks": 300000, "shards": 8}},
+        {"test": "TestC06Grammar", "kind": "rapid", "quick": {"checks": 10000, "shards": 4, "shrink": "15s"}, "thorough": {"checks": 150000, "shards": 8}},
+        {"test": "TestC06Corrupt", "kind": "rapid", "quick": {"checks": 15000, "shards": 4, "shrink": "15s"}, "thorough": {"checks": 300000, "shards": 8}},
         {"test": "FuzzC06", "kind": "fuzz", "thorough": {"fuzztime": 600}},
     ],
     "min_nontrivial": {"quick": 10000, "thorough": 200000},
@@ -284,8 +284,8 @@ PROPS["C14"] = {
     "assumptions": COMMON_ASSUMPTIONS,
     "legs": [
         {"test": "TestC14Positions", "kind": "enum", "quick": {"shards": 1}, "thorough": {"shards": 1}},
-        {"test": "TestC14Mutants", "kind": "rapid", "quick": {"checks": 5000, "shards": 3}, "thorough": {"checks": 150000, "shards": 8}},
-        {"test": "TestC14WellTyped", "kind": "rapid", "quick": {"checks": 5000, "shards": 3}, "thorough": {"checks": 150000, "shards": 8}},
+        {"test": "TestC14Mutants", "kind": "rapid", "quick": {"checks": 12000, "shards": 3}, "thorough": {"checks": 150000, "shards": 8}},
+        {"test": "TestC14WellTyped", "kind": "rapid", "quick": {"checks": 12000, "shards": 3}, "thorough": {"checks": 150000, "shards": 8}},
     ],
     "min_nontrivial": {"quick": 5000, "thorough": 100000},
 }
@@ -306,9 +306,9 @@ PROPS["C17"] = {
             "query longer than 70 bytes or with leading blanks; distinct = distinct (query, padding mode).",
     "assumptions": ["Go toolchain and pgregory.net/rapid v1.3.0 are trusted", "token starts are taken from the engine lexer (validated by C16) and from the reference tokeniser"],
     "legs": [
-        {"test": "TestC17Corrupt", "kind": "rapid", "quick": {"checks": 5000, "shards": 4}, "thorough": {"checks": 200000, "shards": 8}},
-        {"test": "TestC17RunTime", "kind": "rapid", "quick": {"checks": 2500, "shards": 2}, "thorough": {"checks": 100000, "shards": 4}},
-        {"test": "TestC17Typed", "kind": "rapid", "quick": {"checks": 2500, "shards": 2}, "thorough": {"checks": 100000, "shards": 4}},
+        {"test": "TestC17Corrupt", "kind": "rapid", "quick": {"checks": 12000, "shards": 4}, "thorough": {"checks": 200000, "shards": 8}},
+        {"test": "TestC17RunTime", "kind": "rapid", "quick": {"checks": 6000, "shards": 2}, "thorough": {"checks": 100000, "shards": 4}},
+        {"test": "TestC17Typed", "kind": "rapid", "quick": {"checks": 6000, "shards": 2}, "thorough": {"checks": 100000, "shards": 4}},
         {"test": "FuzzC17", "kind": "fuzz", "thorough": {"fuzztime": 300}},
     ],
     "min_nontrivial": {"quick": 5000, "thorough": 100000},
@@ -330,7 +330,7 @@ PROPS["C07"] = {
             "distinct = distinct (query, store, batch size).",
     "assumptions": COMMON_ASSUMPTIONS,
     "legs": [
-        {"test": "TestC07", "kind": "rapid", "quick": {"checks": 5000, "shards": 4, "shrink": "15s"}, "thorough": {"checks": 120000, "shards": 16}},
+        {"test": "TestC07", "kind": "rapid", "quick": {"checks": 12000, "shards": 4, "shrink": "15s"}, "thorough": {"checks": 120000, "shards": 16}},
     ],
     "min_nontrivial": {"quick": 1000, "thorough": 20000},
 }
@@ -353,7 +353,7 @@ PROPS["C08"] = {
     "assumptions": COMMON_ASSUMPTIONS,
     "legs": [
         {"test": "TestC08Grid", "kind": "enum", "quick": {"shards": 8}, "thorough": {"shards": 16}},
-        {"test": "TestC08Sampled", "kind": "rapid", "quick": {"checks": 2000, "shards": 2}, "thorough": {"checks": 50000, "shards": 8}},
+        {"test": "TestC08Sampled", "kind": "rapid", "quick": {"checks": 5000, "shards": 2}, "thorough": {"checks": 50000, "shards": 8}},
     ],
     "min_nontrivial": {"quick": 20000, "thorough": 100000},
 }
@@ -375,8 +375,8 @@ PROPS["C09"] = {
             "tuples with equal concatenation); distinct = distinct (query, store, batch size).",
     "assumptions": COMMON_ASSUMPTIONS,
     "legs": [
-        {"test": "TestC09", "kind": "rapid", "quick": {"checks": 5000, "shards": 3, "shrink": "15s"}, "thorough": {"checks": 120000, "shards": 10}},
-        {"test": "TestC09Collide", "kind": "rapid", "quick": {"checks": 3000, "shards": 2, "shrink": "15s"}, "thorough": {"checks": 80000, "shards": 6}},
+        {"test": "TestC09", "kind": "rapid", "quick": {"checks": 12000, "shards": 3, "shrink": "15s"}, "thorough": {"checks": 120000, "shards": 10}},
+        {"test": "TestC09Collide", "kind": "rapid", "quick": {"checks": 8000, "shards": 2, "shrink": "15s"}, "thorough": {"checks": 80000, "shards": 6}},
     ],
     "min_nontrivial": {"quick": 2000, "thorough": 30000},
     "min_labels": {"colliding-tuples": 500},
@@ -401,7 +401,7 @@ PROPS["C10"] = {
     "assumptions": COMMON_ASSUMPTIONS,
     "legs": [
         {"test": "TestC10Pools", "kind": "enum", "quick": {"shards": 2}, "thorough": {"shards": 2}},
-        {"test": "TestC10Sampled", "kind": "rapid", "quick": {"checks": 5000, "shards": 3}, "thorough": {"checks": 200000, "shards": 12}},
+        {"test": "TestC10Sampled", "kind": "rapid", "quick": {"checks": 15000, "shards": 3}, "thorough": {"checks": 200000, "shards": 12}},
     ],
     "min_nontrivial": {"quick": 5000, "thorough": 100000},
 }
@@ -422,8 +422,8 @@ PROPS["C11"] = {
             "non-trivial (history) = at least 2 writes, 1 select and 3 executed steps; distinct = distinct (statement, store, batch, polls) / distinct histories.",
     "assumptions": COMMON_ASSUMPTIONS,
     "legs": [
-        {"test": "TestC11", "kind": "rapid", "quick": {"checks": 6000, "shards": 3, "shrink": "15s"}, "thorough": {"checks": 150000, "shards": 10}},
-        {"test": "TestC11History", "kind": "rapid", "quick": {"checks": 400, "shards": 3, "steps": 25, "shrink": "15s"}, "thorough": {"checks": 15000, "shards": 6, "steps": 30}},
+        {"test": "TestC11", "kind": "rapid", "quick": {"checks": 15000, "shards": 3, "shrink": "15s"}, "thorough": {"checks": 150000, "shards": 10}},
+        {"test": "TestC11History", "kind": "rapid", "quick": {"checks": 1000, "shards": 3, "steps": 25, "shrink": "15s"}, "thorough": {"checks": 15000, "shards": 6, "steps": 30}},
     ],
     "min_nontrivial": {"quick": 3000, "thorough": 50000},
 }
@@ -443,8 +443,8 @@ PROPS["C12"] = {
             "expression after a succeeding one; distinct = distinct (statement, prior state, polls).",
     "assumptions": COMMON_ASSUMPTIONS,
     "legs": [
-        {"test": "TestC12", "kind": "rapid", "quick": {"checks": 6000, "shards": 3}, "thorough": {"checks": 150000, "shards": 10}},
-        {"test": "TestC12History", "kind": "rapid", "quick": {"checks": 400, "shards": 2, "steps": 25, "shrink": "15s"}, "thorough": {"checks": 15000, "shards": 6, "steps": 30}},
+        {"test": "TestC12", "kind": "rapid", "quick": {"checks": 15000, "shards": 3}, "thorough": {"checks": 150000, "shards": 10}},
+        {"test": "TestC12History", "kind": "rapid", "quick": {"checks": 1000, "shards": 2, "steps": 25, "shrink": "15s"}, "thorough": {"checks": 15000, "shards": 6, "steps": 30}},
     ],
     "min_nontrivial": {"quick": 3000, "thorough": 50000},
 }
@@ -466,7 +466,7 @@ PROPS["C13"] = {
             "distinct = distinct (statement, store, batch size, mode, fault index).",
     "assumptions": COMMON_ASSUMPTIONS,
     "legs": [
-        {"test": "TestC13Faults", "kind": "rapid", "quick": {"checks": 500, "shards": 4, "shrink": "15s"}, "thorough": {"checks": 15000, "shards": 16}},
+        {"test": "TestC13Faults", "kind": "rapid", "quick": {"checks": 1500, "shards": 4, "shrink": "15s"}, "thorough": {"checks": 15000, "shards": 16}},
         {"test": "TestC13Rejected", "kind": "rapid", "quick": {"checks": 2000, "shards": 1}, "thorough": {"checks": 50000, "shards": 4}},
     ],
     "min_nontrivial": {"quick": 5000, "thorough": 100000},
@@ -490,7 +490,7 @@ PROPS["C19"] = {
             "statements; distinct = distinct (statement set, modes, GOMAXPROCS, store).",
     "assumptions": COMMON_ASSUMPTIONS + ["the Go race detector's happens-before analysis is trusted"],
     "legs": [
-        {"test": "TestC19", "kind": "rapid", "race": True, "quick": {"checks": 150, "shards": 4, "shrink": "10s"}, "thorough": {"checks": 4000, "shards": 8}},
+        {"test": "TestC19", "kind": "rapid", "race": True, "quick": {"checks": 400, "shards": 4, "shrink": "10s"}, "thorough": {"checks": 4000, "shards": 8}},
     ],
     "min_nontrivial": {"quick": 200, "thorough": 5000},
     "timeout": {"quick": 900, "thorough": 7200},
